@@ -256,6 +256,11 @@ func reuseDenseCheck(reuse DenseTensor, as DenseTensor) (err error) {
 
 // reuseCheckShape  checks the shape and reshapes it to be correct if the size fits but the shape doesn't.
 func reuseCheckShape(reuse DenseTensor, s Shape) (err error) {
+	if reuse.parentTensor() != nil && reuse.DataOrder().IsNotContiguous() {
+		// what follows takes over the reuse tensor's window as one contiguous block; the window of a
+		// non-contiguous view also holds elements of the viewed tensor that are not the view's
+		return errors.Errorf(methodNYI, "reuse", "non-contiguous views")
+	}
 	throw := BorrowInts(len(s))
 	copy(throw, s)
 
